@@ -11,28 +11,38 @@ import (
 func main() {
 	os.Setenv("VERIF_SCRATCH", "/tmp/probe-scr")
 	os.MkdirAll("/tmp/probe-scr", 0o755)
-	s, err := tty.Start(tty.StartOpts{InputCmd: "seq 5000", Cols: 100, Rows: 30})
-	if err != nil {
-		fmt.Println("start:", err)
-		return
-	}
-	defer s.Close()
-	st, ok := s.WaitQuiescent(10 * time.Second)
-	fmt.Println("initial", ok, st != nil)
-	for round := 0; round < 5; round++ {
-		s.Post("execute-silent(sleep 0.15)")
-		s.Post("put(1)")
-		s.Post("toggle-sort")
-		s.Post("put(2)")
-		t0 := time.Now()
-		st, ok = s.WaitQuiescent(8 * time.Second)
-		fmt.Println("round", round, ok, time.Since(t0), "posted", s.Posted)
-		if !ok {
-			for _, e := range s.Trace()[len(s.Trace())-14:] {
-				fmt.Printf("  %s(%d,%d,%s)\n", e.Kind, e.A, e.B, e.S)
-			}
-			st2, err := s.Get(10)
-			fmt.Println(st2, err)
+	os.WriteFile("/tmp/probe-scr/alt", []byte("R1 foo\nR2 bar\nR3 foo bar\n"), 0o644)
+	bad := 0
+	for trial := 0; trial < 30; trial++ {
+		s, err := tty.Start(tty.StartOpts{InputCmd: "seq 5000", Args: []string{"--tail=250", "--no-sort"}, Cols: 100, Rows: 30})
+		if err != nil {
+			fmt.Println("start:", err)
+			return
 		}
+		s.WaitQuiescent(10 * time.Second)
+		s.Post("execute-silent(sleep 0.15)")
+		s.Post("put( )")
+		s.Post("reload(cat /tmp/probe-scr/alt)")
+		s.Post("unix-word-rubout")
+		s.Post("put(foo)")
+		st, ok := s.WaitQuiescent(3 * time.Second)
+		if !ok {
+			bad++
+			st2, _ := s.Get(10)
+			fmt.Println("trial", trial, "stuck:", s.LastWait, st2.TotalCount, st2.MatchCount, st2.Reading)
+			for _, e := range s.Trace() {
+				if e.Kind != "scan.chunk" && e.Kind != "scan.count" {
+					fmt.Printf("  %d %s(%d,%d,%s)\n", e.TUs/1000, e.Kind, e.A, e.B, e.S)
+				}
+			}
+			s.Signal(3)
+			time.Sleep(300 * time.Millisecond)
+			fmt.Println(s.Stderr()[:3000])
+			s.Close()
+			break
+		}
+		_ = st
+		s.Close()
 	}
+	fmt.Println("bad", bad)
 }
